@@ -20,7 +20,7 @@ RULE = ("square non-negative integer matrices, zero diagonal, a positive "
         "lb <= len <= ub. non-trivial = distinct (matrix, tour) with n >= 3 "
         "and a non-constant matrix")
 LEVEL_ASSUMPTIONS = ["oracle: sum of original Python ints along the cycle"]
-REQUIRED = {"suite_runs": 1, "contract_tour_length_evaluated": 20, "tour_evaluations": 3000, "asymmetric_instances": 100,
+REQUIRED = {"concurrent_tour_lengths": 2000, "suite_runs": 1, "contract_tour_length_evaluated": 20, "tour_evaluations": 3000, "asymmetric_instances": 100,
             "corner_asymmetric": 20, "dtype_boundary_instances": 50,
             "bound_attained_lower": 20, "bound_attained_upper": 20,
             "instances_all_perms": 20, "multiplier_instances": 30,
@@ -66,6 +66,13 @@ def big_kernel(ctx, rng):
 
 
 def plan(tier: str, seed: int):
+    # plus a thread-stress shard (vlib/threads.py)
+    return _plan_nothreads(tier, seed) + [
+        {"name": "threads", "engine": "jit", "timeout": 3000,
+         "args": {"mode": "threads", "n": 4 if tier == "quick" else 60}}]
+
+
+def _plan_nothreads(tier: str, seed: int):
     rounds = 1 if tier == "quick" else 6
     return _plan(tier, seed) + [
         {"name": f"suite{i}", "engine": "jit", "timeout": 3000,
@@ -341,7 +348,40 @@ def one_instance(ctx, m, tag, mult, in_dtype, all_perms, layout=None):
                     "a_tour": tours[-1], "mult": mult})
 
 
+def threads_shard(ctx, args):
+    """One shared TSP instance, every thread its own TourLength object."""
+    from moptipy.spaces.permutations import Permutations
+
+    from moptipyapps.tsp.instance import Instance
+    from moptipyapps.tsp.tour_length import TourLength
+    from vlib.threads import stress
+    rng = ctx.rng
+    for _ in range(args["n"]):
+        n = int(rng.choice([5, 17, 40, 129]))
+        m, tag = gen_matrix(rng, n)
+        if sum(max(r) for r in m) > 10 ** 15:
+            continue
+        inst = Instance(f"thr{n}", 0, np.array(m, np.int64))
+        tours = [rng.permutation(n) for _ in range(10)]
+        ref = [sum(m[int(t[k - 1])][int(t[k])] for k in range(n))
+               for t in tours]
+
+        def jobs_for(tid):
+            o = TourLength(inst)
+            sp = Permutations.standard(n)
+            xs = []
+            for t in tours:
+                x = sp.create()
+                x[:] = t
+                xs.append(x)
+            return [lambda x=x: o.evaluate(x) for x in xs]
+        if not stress(ctx, "tour_lengths", jobs_for, ref,
+                      lambda a, b: a == b, loops=40):
+            return
+
 def run_shard(ctx, args):
+    if args.get("mode") == "threads":
+        return threads_shard(ctx, args)
     rng = ctx.rng
     big_kernel(ctx, rng)
     for it in range(args["n"]):
